@@ -129,7 +129,7 @@ def first_diff(a: str, b: str) -> str:
 
 
 GEN = dict(kw_rate=0.03, docs=0.5, test_dirs=True, unique_top_names=False, ties=0.3, infer_returns=0.3, doc_types="mixed",
-           aliases=0.4, private_rate=0.25)
+           aliases=0.4, private_rate=0.25, decoys=0.4)
 
 
 def compare(ctx, r, m) -> None:
